@@ -23,11 +23,18 @@ def plan(tier):
     p.append((S.replay_of(S.T2(), "all passed, shared=chain", shared=S.VM1_CHAIN), 1, 1))
     p.append((S.G1(), 0 if q else 1, 3))
     p.append((S.T1("net0").variant("/serial"), 1, 0.5))
+    # COMPLETE enumeration (no deviation bound): every duration / outcome / tie-order sequence of small graphs
+    p.append((S.T1(shared=S.VM1_CHAIN[:2]).variant("/shared=install+customize,ALL-SCHEDULES"), 99, 0.5))
+    p.append((S.T1("net1 net2 net3", shared=S.VM1_CHAIN[:2]).variant("/shared=install+customize,ALL-SCHEDULES"), 99, 0.5))
+    p.append((S.T1(shared=S.VM1_CHAIN[:1]).variant("/shared=install,ALL-SCHEDULES"), 99, 1))
+    p.append((S.T2(shared=S.VM1_CHAIN[:2]).variant("/shared=install+customize,ALL-SCHEDULES"), 99, 1))
+    if not q:
+        p.append((S.T2(shared=S.VM1_CHAIN[:1]).variant("/shared=install,ALL-SCHEDULES"), 99, 4))
     return p
 
 
 def run(tier, seed):
-    return checkbase.run_e1("C08", tier, seed, TECH, (lambda: plan(tier)), monitors.c08m, 240, 1800,
+    return checkbase.run_e1("C08", tier, seed, TECH, (lambda: plan(tier)), monitors.c08m, 420, 2400,
                             "executions = complete runs of the real traversal, one per choice sequence (durations, outcomes, tie order) with at most k "
                             "non-default choices over worker sets with mixed restrictions, swarms and clusters; distinct = distinct (scenario, "
                             "(worker,test,status) sequence)",
